@@ -59,7 +59,10 @@ RULE = ("ranked rule systems (5-9 variables over the expression language of coq/
         "FullTracer on or off; plus a stream of circular definitions passing through 1-2 other periods of the same "
         "variable before closing under max_spiral_loops 1-3 (missing input then supplied), and a stream "
         "of self-dependent (spiralling) systems with raising formulas and malformed requests for which only the "
-        "stack / cursor / purge / re-entrance part is claimed.  Non-trivial: an injected failure fired below the top-level "
+        "stack / cursor / purge / re-entrance part is claimed; oracle-only (model side skipped): 20 chains of 400 "
+        "variables requested from 10 call depths (RecursionError inside the engine, then bottom-up and again), and "
+        "float systems whose unguarded divisions give NaN / inf for some persons (set_input correcting the input "
+        "only after a request that failed).  Non-trivial: an injected failure fired below the top-level "
         "request with at least one unfinished frame; distinct by JSON text")
 TRUSTED = ["harness/rules.py: compiler from rule-system terms to real Variable subclasses (formulas call the public API)",
            "harness/c18.py: the wrapper around Simulation.calculate (instance attribute) that records the calls in "
@@ -472,6 +475,59 @@ def gen_eternal_spiral(rng):
             "fixvals": []}
 
 
+def gen_deep_chain(k, trace):
+    """v0 input, v_i = v_(i-1) + 1, deeper than the interpreter's recursion limit allows: the top request dies with a
+    RecursionError raised somewhere inside the engine.  The request is issued from call depth +k (k = 0..9 covers
+    every alignment of the limit with the engine's frames), then the chain is computed bottom-up in steps the limit
+    allows and the top request repeated.  Oracle only (the model has no recursion limit)."""
+    n = 400
+    var = lambda fs: {"ent": "person", "type": "int", "unit": "month", "end": None, "formulas": fs,  # noqa: E731
+                      "default": 0, "neutral": False}
+    vs = [var([])] + [var([[[1, 1, 1], ["bin", "add", ["dep", i - 1, "same", "plain"], ["const", 1]]]])
+                      for i in range(1, n)]
+    p = ["month", [2020, 1, 1], 1]
+    reqs = [["set", 0, p, [5, 7]], ["calc", 30, p], ["calc", n - 1, p], ["calc", n - 1, p]]
+    reqs += [["calc", t, p] for t in range(60, n, 60)] + [["calc", n - 1, p], ["calc", n - 1, ["month", [2020, 2, 1], 1]]]
+    return {"sys": {"vars": vs, "params": [], "switches": [], "max_loops": 1},
+            "pop": {"count": 1, "ids": [0, 0], "roles": [0, 1]}, "cfg": {"trace": trace}, "requests": reqs,
+            "mode": "deep", "pad": k, "inject": {"var": None, "kind": "deep-chain", "where": None, "target": None},
+            "fixvals": []}
+
+
+FLOAT_VALUES = [0, 0, 0, 1, 2.5, -3, 100, 0.5]
+
+
+def gen_float(rng):
+    """float variables whose formulas divide, subtract and multiply without guarding: 0/0, inf-inf, inf*0 give NaN
+    and x/0 gives inf for some persons.  Oracle only (the model computes in Z).  ["condset", v, p, vals] is a
+    set_input made only if the request just before it failed."""
+    fvar = lambda fx: {"ent": "person", "type": "float", "unit": "month", "fx": fx}  # noqa: E731
+    second = rng.choice([["sub", ["div", ["in", 0], ["in", 1]], ["div", ["in", 2], ["in", 1]]],      # inf - inf
+                         ["mul", ["div", ["in", 0], ["in", 1]], ["in", 2]],                          # inf * 0
+                         ["div", ["sub", ["in", 0], ["in", 2]], ["sub", ["in", 1], ["in", 2]]]])
+    vs = [fvar(None), fvar(None), fvar(None),
+          fvar(["div", ["in", 0], ["in", 1]]),                     # 3: a / b
+          fvar(second),                                            # 4
+          fvar(["add", ["mul", ["in", 3], ["num", 2]], ["in", 2]]),   # 5 reads 3
+          fvar(["add", ["in", 0], ["in", 2]]),                     # 6 healthy
+          fvar(["add", ["lastm", 3], ["in", 0]])]                  # 7 reads 3 one month earlier
+    pop = rules.gen_pop(rng, 4)
+    n = len(pop["ids"])
+    y, mo = rng.choice([2019, 2020]), rng.randint(2, 12)
+    per = lambda j: ["month", [y, mo - j, 1], 1]  # noqa: E731
+    vals = lambda: [rng.choice(FLOAT_VALUES) for _ in range(n)]  # noqa: E731
+    reqs = [["set", i, per(j), vals()] for i in range(3) for j in range(2) if rng.random() < 0.9]
+    calcs = lambda c: [["calc", rng.choice([3, 4, 5, 7, 3, 4, 6]), per(0)] for _ in range(c)]  # noqa: E731
+    first = calcs(rng.randint(2, 4))
+    reqs += first
+    for r in rng.sample(first, min(2, len(first))):
+        reqs += [r, ["condset", 1, per(rng.choice([0, 0, 1])), [rng.choice([1, 2, -4, 0.5]) for _ in range(n)]], r]
+    reqs += calcs(rng.randint(1, 2))
+    return {"sys": {"float": True, "vars": vs, "params": [], "switches": [], "max_loops": 1}, "pop": pop,
+            "cfg": {"trace": rng.random() < 0.5}, "requests": reqs, "mode": "float",
+            "inject": {"var": 1, "kind": "float-special-values", "where": None, "target": None}, "fixvals": []}
+
+
 def generate(rng, tier):
     n_full, n_spiral = {"quick": (420, 60), "escalated": (1500, 200), "thorough": (3600, 400)}[tier]
     cases, counter = [], [rng.randrange(len(KINDS) * 3)]
@@ -484,6 +540,11 @@ def generate(rng, tier):
         cases.append(gen_long_cycle(rng))
     for _ in range(n_spiral // 2):
         cases.append(gen_eternal_spiral(rng))
+    for k in range(10):
+        cases.append(gen_deep_chain(k, trace=k % 2 == 1))
+        cases.append(gen_deep_chain(k, trace=k % 2 == 0))
+    for _ in range(n_spiral):
+        cases.append(gen_float(rng))
     return cases
 
 
@@ -497,7 +558,12 @@ class Runner:
     def __init__(self, case, probe=False, trace=None):
         self.sys, self.pop = copy.deepcopy(case["sys"]), case["pop"]     # self.sys follows ["replace", ...] requests
         self.switches = set(self.sys.get("switches", []))
-        self.tbs = rules.build_system(self.sys, self.switches)
+        self.pad = case.get("pad", 0)
+        self.float = bool(self.sys.get("float"))
+        if self.float:
+            self.tbs = build_float_system(self.sys)
+        else:
+            self.tbs = rules.build_system(self.sys, self.switches)
         cfg = dict(case.get("cfg") or {})
         if trace is not None:
             cfg["trace"] = trace
@@ -588,13 +654,17 @@ class Runner:
             if r[0] == "addvar":
                 self.add_variable(r[1])
                 return None
-            return rules.do_request(self.sim, self.sys, self.switches, r)
+            if self.float:
+                return float_request(self.sim, r)
+            return padded(self.pad, lambda: rules.do_request(self.sim, self.sys, self.switches, r))
         except rules.Inexact:
             raise
         except Exception as e:  # noqa: BLE001
             return Err(errkind(e), f"{type(e).__name__}: {e}"[:200])
 
     def cache(self):
+        if self.float:
+            return float_cache(self.sim, self.sys)
         entries = rules.cache_obs(self.sim, self.sys)
         for k in range(len(self.added)):
             idx = len(self.sys["vars"]) + k
@@ -610,6 +680,60 @@ class Runner:
         d = getattr(self.sim, "_data_storage_dir", None)
         if d:
             shutil.rmtree(d, ignore_errors=True)
+
+
+def padded(k, f):
+    """f() called k Python frames deeper"""
+    return f() if k <= 0 else padded(k - 1, f)
+
+
+# float systems (oracle only): values are observed as text, so that nan = nan and -0.0 is not 0.0
+
+def fev(fx, person, period):
+    tag = fx[0]
+    if tag == "in":
+        return person(f"v{fx[1]}", period)
+    if tag == "lastm":
+        return person(f"v{fx[1]}", period.last_month)
+    if tag == "num":
+        return numpy.float32(fx[1])
+    a, b = fev(fx[1], person, period), fev(fx[2], person, period)
+    with numpy.errstate(all="ignore"):
+        return {"add": numpy.add, "sub": numpy.subtract, "mul": numpy.multiply, "div": numpy.divide}[tag](a, b)
+
+
+def build_float_system(sys):
+    tbs = rules.build_system({"vars": [], "params": []}, set())
+    person = [e for e in tbs.entities if e.key == "person"][0]
+    for i, v in enumerate(sys["vars"]):
+        attrs = {"value_type": float, "entity": person, "definition_period": rules.UNIT_OBJ[v["unit"]]}
+        if v["fx"] is not None:
+            attrs["formula"] = (lambda fx: lambda person, period, parameters: fev(fx, person, period))(v["fx"])
+        tbs.add_variable(type(f"v{i}", (Variable,), attrs))
+    return tbs
+
+
+def ftext(a):
+    return [repr(float(x)) for x in numpy.asarray(a, dtype=numpy.float64).reshape(-1).tolist()]
+
+
+def float_request(sim, r):
+    if r[0] == "set":
+        sim.set_input(f"v{r[1]}", rules.mk_period(r[2]), numpy.array(r[3], dtype=numpy.float32))
+        return None
+    if r[0] == "calc":
+        return ftext(sim.calculate(f"v{r[1]}", rules.mk_period(r[2])))
+    raise AssertionError(r)
+
+
+def float_cache(sim, sys):
+    entries = []
+    for i in range(len(sys["vars"])):
+        holder = sim.get_holder(f"v{i}")
+        for p in holder.get_known_periods():
+            entries.append([[i] + rules.period_key(rules.period_json(p)), ftext(holder._memory_storage.get(p))])
+    entries.sort(key=lambda e: e[0])
+    return entries
 
 
 def frame_key(sys, name, period):
@@ -677,7 +801,7 @@ def _fresh_case(case, requests, switches, sys=None):
 
 def _run(case):
     sys, pop = case["sys"], case["pop"]
-    full = case.get("mode") == "full"
+    full = case.get("mode") in ("full", "float")
     count_of = lambda v: rules.count_for(pop, v)  # noqa: E731
     main = Runner(case, probe=True)
     steps, resolved, fired, state, fresh, entries = [], [], [], [], [], []
@@ -690,6 +814,10 @@ def _run(case):
                 r = resolve_fix(case, last_fired, count_of)
                 if r is None:
                     continue
+            if r[0] == "condset":       # the offending input is corrected, only if the request before failed
+                if not (steps and isinstance(steps[-1][0], Err)):
+                    continue
+                r = ["set"] + r[1:]
             switches_before = set(main.switches)
             a = main.do(r)
             after = main.cache()
@@ -746,13 +874,23 @@ def _run(case):
             before = after
         # the same sequence on a simulation where the failed requests are never made
         replay = None
-        if full:
+        if full or case.get("mode") == "deep":
             failed = [k for k, (r, s) in enumerate(zip(resolved, steps)) if is_calc(r) and isinstance(s[0], Err)]
             ref = Runner(case, trace=False)
             replay = []
             for k, r in enumerate(resolved):
                 replay.append(None if k in failed else ref.do(r))
             ref.close()
+            if case.get("mode") == "deep":
+                # a failed request is compared too: with the simulation on which the failed requests BEFORE it were
+                # never made (a new simulation cannot answer a deep request alone)
+                for k in failed:
+                    ref = Runner(case, trace=False)
+                    for j in range(k):
+                        if j not in failed:
+                            ref.do(resolved[j])
+                    replay[k] = ref.do(resolved[k])
+                    ref.close()
     finally:
         main.close()
     return {"steps": steps, "requests": resolved, "fired": fired, "state": state, "fresh": fresh,
@@ -764,8 +902,8 @@ def coq_case(case):
     if res is None:
         run_impl(case)
         res = _RESOLVED.get(_key(case))
-    if res == "skip":
-        return "Corr_C18.CSkip"
+    if res == "skip" or case.get("mode") in ("deep", "float"):
+        return "Corr_C18.CSkip"          # oracle only: recursion limits and NaN / inf are not in the model
     cur = copy.deepcopy(case["sys"])
     switches = list(cur.get("switches", []))
     segs, reqs = [], []
@@ -791,6 +929,8 @@ def coq_case(case):
 def obs_for_coq(case, obs):
     if obs == "skip" or isinstance(obs, Err):
         return obs
+    if case.get("mode") in ("deep", "float"):
+        return "skip"
     return obs["steps"]
 
 
@@ -803,7 +943,8 @@ def oracle(case, obs):
         return None
     if isinstance(obs, Err):
         return f"driver: the harness driver failed: {obs.kind} {obs.msg}"
-    full = case.get("mode") == "full"
+    full = case.get("mode") in ("full", "float")
+    deep = case.get("mode") == "deep"
     reqs, steps = obs["requests"], obs["steps"]
     prev_cache = []
     for k, (r, (a, depth, cache)) in enumerate(zip(reqs, steps)):
@@ -837,6 +978,15 @@ def oracle(case, obs):
             for fk, fj in zip(fired["keys"], fired["frames"]):
                 if fk is not None and json.dumps(fk) in now and json.dumps(fk) not in old:
                     return f"half-stored: {what} failed while computing {fj} and a value was recorded for it"
+        if deep and is_calc(r):
+            # a chain deeper than the recursion limit: a new simulation cannot answer the request alone either, so
+            # the comparison is with the same sequence minus the failed requests
+            for kk, val in old.items():
+                if now.get(kk) != val:
+                    return f"lost: cache entry {kk} changed or disappeared during {what}"
+            if obs["replay"][k] != a:
+                return (f"not-transparent: {what} returned {a}; on a simulation where the failed requests before it "
+                        f"were never made it returns {obs['replay'][k]}")
         if full and is_calc(r):
             # values completed before remain (the cache only grows), with the same content
             for kk, val in old.items():
@@ -875,6 +1025,8 @@ def recovered(case, obs):
 def nontrivial(case, obs):
     if obs == "skip" or isinstance(obs, Err):
         return False
+    if case.get("mode") == "float":
+        return any(isinstance(st[0], list) and any(x in ("nan", "inf", "-inf") for x in st[0]) for st in obs["steps"])
     return any(f is not None and len(f["frames"]) >= 1 for f in obs["fired"])
 
 
@@ -893,6 +1045,9 @@ def classify(case, obs):
         tag += ":variable-added"
     if case.get("mode") == "full":
         tag += ":recovered" if recovered(case, obs) else ":not-recovered"
+    if case.get("mode") == "float":
+        vals = [x for st in obs["steps"] if isinstance(st[0], list) for x in st[0]]
+        tag += ":nan" if "nan" in vals else (":inf" if "inf" in vals or "-inf" in vals else ":finite")
     return tag
 
 
